@@ -640,12 +640,12 @@ def _first_segment_indent(prog, w: FuncInfo, a1: ast.AST, node: Node, p_init: st
 
 
 # ---------------------------------------------------------------------------------------- R-ACCT
-def check_accounting(ctx: Ctx) -> None:
+def check_accounting(ctx: Ctx, markdown_only: bool = False) -> None:
     repo, prog = ctx.repo, ctx.prog
     wl = repo.func(f"{TW}:wrap_paragraph_lines")
     wp = repo.func(f"{TW}:wrap_paragraph")
     ft = repo.func("flowmark.linewrapping.text_filling:fill_text")
-    chain = [(wp, wl), (width_wrapper(ctx), wp), (sentence_wrapper(ctx), wl), (ft, wp)]
+    chain = [(wp, wl), (width_wrapper(ctx), wp), (sentence_wrapper(ctx), wl)] + ([] if markdown_only else [(ft, wp)])
     for caller, callee in chain:
         flow = prog.flow(caller)
         sites = [(n, c) for n, c in flow.all_calls() if prog.resolve_call(caller, c) == [callee]]
@@ -752,29 +752,40 @@ def check_accounting(ctx: Ctx) -> None:
         ok = {"current_width", "word_width", "space_width"} <= names or len(names) >= 3
         ctx.ob("R-ACCT", f"{wl.qual} :: fit test", ok and norm(t.ast.comparators[0]) == "width",
                f"a word fits if column + word + separating space <= width; the test reads {sorted(names)} against `{norm(t.ast.comparators[0])}`", where(wl, t))
-    resets = [n for n in flow.cfg.nodes if n.kind == "stmt" and isinstance(n.ast, ast.Assign) and norm(n.ast.targets[0]) == "current_width"
-              and any(n in flow.loop_body_nodes(h) for h in flow.cfg.nodes if h.kind == "for")]
-    for n in resets:
-        names = {x.id for x in ast.walk(n.ast.value) if isinstance(x, ast.Name)}
-        if "subsequent_offset" not in names:
-            continue
-        # the width term must be the length of the value that is placed at the start of the new line
-        placed = None
-        for m in flow.cfg.nodes:
-            if m.kind == "stmt" and isinstance(m.ast, ast.Assign) and isinstance(m.ast.value, ast.List) and len(m.ast.value.elts) == 1 \
-                    and isinstance(m.ast.value.elts[0], ast.Name) and m in flow.loop_body_nodes(next(h for h in flow.cfg.nodes if h.kind == "for" and n in flow.loop_body_nodes(h))):
-                placed = m.ast.value.elts[0].id
-        ok = False
-        if placed is not None:
-            # some length term of the (expanded) column expression measures exactly the placed value
-            want = norm(expand_expr(prog, wl, ast.Name(id=placed, ctx=ast.Load()), n))
-            ex = expand_expr(prog, wl, n.ast.value, n)
-            for c2 in ast.walk(ex):
-                if isinstance(c2, ast.Call) and len(c2.args) == 1 and norm(c2.args[0]) in (want, placed):
-                    ok = True
-        ctx.ob("R-ACCT", f"{wl.qual} :: new line column = subsequent_offset + len(placed word)", ok,
-               f"after a break the column must be the continuation offset plus the length of the word actually placed (`{placed}`, "
-               "which may carry an escaping backslash)", where(wl, n))
+    # the running column: the variable of the fit test that is re-assigned inside the word loop
+    wvars: set[str] = set()
+    for t in fits:
+        for x in ast.walk(t.ast.left):
+            if isinstance(x, ast.Name) and any(d.node in flow.loop_body_nodes(h) and d.kind in ("assign", "aug") for h in flow.cfg.nodes if h.kind == "for"
+                                               for d in flow.defs if d.var == x.id):
+                if any(d.kind == "aug" for d in flow.defs if d.var == x.id):
+                    wvars.add(x.id)
+    starts = [m for m in flow.cfg.nodes if m.kind == "stmt" and isinstance(m.ast, ast.Assign) and isinstance(m.ast.value, ast.List) and len(m.ast.value.elts) == 1
+              and isinstance(m.ast.value.elts[0], ast.Name) and any(m in flow.loop_body_nodes(h) for h in flow.cfg.nodes if h.kind == "for")]
+    for m in starts:
+        placed = m.ast.value.elts[0].id
+        mg = {(b.id, lab) for b, lab in all_guards(prog, wl, m)}
+        resets = [n for n in flow.cfg.nodes if n.kind == "stmt" and isinstance(n.ast, ast.Assign) and isinstance(n.ast.targets[0], ast.Name)
+                  and n.ast.targets[0].id in wvars and {(b.id, lab) for b, lab in all_guards(prog, wl, n)} == mg]
+        ctx.require("R-ACCT", "column reset where a new line is started", len(resets), 1)
+        for n in resets:
+            ex = expand_expr(prog, wl, n.ast.value, n, strict=False)
+            terms: list[ast.AST] = []
+
+            def flat(e: ast.AST) -> None:
+                if isinstance(e, ast.BinOp) and isinstance(e.op, ast.Add):
+                    flat(e.left)
+                    flat(e.right)
+                else:
+                    terms.append(e)
+            flat(ex)
+            want = norm(expand_expr(prog, wl, ast.Name(id=placed, ctx=ast.Load()), n, strict=False))
+            n_off = sum(1 for t_ in terms if isinstance(t_, ast.Name) and t_.id == "subsequent_offset" and "subsequent_offset" in wl.params)
+            n_len = sum(1 for t_ in terms if isinstance(t_, ast.Call) and len(t_.args) == 1 and norm(t_.args[0]) in (want, placed))
+            ok = len(terms) == 2 and n_off == 1 and n_len == 1
+            ctx.ob("R-ACCT", f"{wl.qual} :: new line column = subsequent_offset + len(placed word)", ok,
+                   f"after a break the column must be the continuation offset plus the length of the word actually placed (`{placed}`, "
+                   f"which may carry an escaping backslash); it is `{norm(ex)[:90]}`", where(wl, n))
     # width <= 0: single line, before any splitting
     for f, target in ((wl, "splitter"), (sw, "split_sentences")):
         fl = prog.flow(f)
